@@ -6,6 +6,7 @@ sequence (all arrival orders and all interleavings of Add, ticker, watermark pop
 trigger-loop iterations); event time, ALLOWEDLATENESS = 0.
 -/
 import SsqlVerif.Proofs.SlidingHist
+import SsqlVerif.Proofs.SlidingLate
 set_option autoImplicit false
 
 namespace C08
@@ -101,6 +102,13 @@ theorem pass_done (s : SW) (w c : Int) (ht : s.trigW = some w) (hc : s.cur = som
     unfold fireOrSkip at hdone
     split at hdone <;> simp [ht] at hdone
   · omega
+
+/-- The model the driver executes (`SlidingLate`, which also covers ALLOWEDLATENESS > 0) coincides,
+for ALLOWEDLATENESS = 0, with the base model all theorems above are about: same state, same results. -/
+theorem late_extension_coincides (size slide ooo : Int) (ops : List Op) :
+    (SlidingLate.run (SlidingLate.init size slide ooo 0) ops).1.base = (run (init size slide ooo) ops).1 ∧
+    (SlidingLate.run (SlidingLate.init size slide ooo 0) ops).2 = (run (init size slide ooo) ops).2 :=
+  SlidingLate.run_l0 (SlidingLate.init size slide ooo 0) ops ⟨rfl, rfl⟩
 
 /-! ### non-vacuity: slide > size, slide ∤ size and an early on-time row -/
 def demoOps : List Op :=
